@@ -10,7 +10,7 @@ CLASS_PROPS = {
 
 
 def cfg(name, **kw):
-    c = dict(MaxSteps=4, MaxPerSrc=3, Cuts='FALSE', InstSetName='"two"', PanicSrcs='{0}')
+    c = dict(MaxSteps=4, MaxPerSrc=3, Cuts='FALSE', InstSetName='"two"', PanicSrcs='{0}', SyncSetName='"none"')
     c.update(kw)
     lines = ['SPECIFICATION Spec', 'CONSTANTS'] + [' %s = %s' % (k, v) for k, v in c.items()]
     lines += ['INVARIANTS TypeOK Grammar ClosedReleasesAll EmitCase']
@@ -29,6 +29,9 @@ def run(rep, pid, thorough):
     cfgs = [cfg('multi-two', MaxSteps=6 if thorough else 5, MaxPerSrc=3),
             cfg('multi-two-cuts', MaxSteps=5 if thorough else 4, MaxPerSrc=3, Cuts='TRUE'),
             cfg('multi-two-panicking-teardown', MaxSteps=4 if thorough else 3, MaxPerSrc=2, Cuts='TRUE', PanicSrcs='{1, 2}'),
+            cfg('multi-two-sync-end', MaxSteps=4 if thorough else 3, MaxPerSrc=2, Cuts='TRUE', SyncSetName='"ends"'),
+            cfg('multi-two-sync-end-panicking-teardown', MaxSteps=3 if thorough else 2, MaxPerSrc=2, Cuts='TRUE', SyncSetName='"ends"', PanicSrcs='{1, 2}'),
+            cfg('multi-three-sync-end', MaxSteps=3 if thorough else 2, MaxPerSrc=2, Cuts='TRUE', SyncSetName='"ends"', InstSetName='"three"'),
             cfg('multi-three', MaxSteps=5 if thorough else 4, MaxPerSrc=2, InstSetName='"three"')]
     pp.run(rep, pid, cfgs, modes='ctl-unsafe,ctl-safe', module='MultiGen', replay_cmd='replay-multi', class_props=CLASS_PROPS, prefix='multi.')
 
